@@ -94,6 +94,8 @@ class Gen:
             extras = []
             if kind in ("dataclass", "plain"):
                 extras = r.choice([[], [], [], [], [], [], [], ["call"], ["classvar_self"], ["call", "classvar_self"]])
+            if kind == "plain" and r.random() < 0.35:
+                extras = [x for x in extras if x != "classvar_self"] + ["init_hints"]     # field types on __init__ only
             prog["classes"].append({"id": cid, "name": name, "qualname": qual, "module": module, "kind": kind,
                                     "opts": opts, "fields": [], "required": [], "defaults": [], "members": [], "mixin": "none",
                                     "extras": extras})
